@@ -21,6 +21,8 @@ import (
 	"math/big"
 	"sort"
 
+	storetypes "github.com/cosmos/cosmos-sdk/store/types"
+	sdk "github.com/cosmos/cosmos-sdk/types"
 	"github.com/ethereum/go-ethereum/common"
 )
 
@@ -121,6 +123,16 @@ type (
 	codeChange struct {
 		account            *common.Address
 		prevcode, prevhash []byte
+	}
+
+	// precompileCallChange is recorded before a stateful precompile runs (see
+	// StateDB.BeginPrecompileCall): the branch of the store the call works on, the events and the
+	// in-memory description of what that store contains, all as they were before the call.
+	precompileCallChange struct {
+		multiStore storetypes.CacheMultiStore
+		events     sdk.Events
+		transient  map[common.Address]Storage
+		balances   map[common.Address]*big.Int
 	}
 
 	// Changes to other state values.
@@ -237,5 +249,13 @@ func (ch accessListAddSlotChange) Revert(s *StateDB) {
 }
 
 func (ch accessListAddSlotChange) Dirtied() *common.Address {
+	return nil
+}
+
+func (ch precompileCallChange) Revert(s *StateDB) {
+	s.revertPrecompileCall(ch)
+}
+
+func (ch precompileCallChange) Dirtied() *common.Address {
 	return nil
 }
